@@ -143,11 +143,13 @@ func (e *Engine) specInfo(fn *ssa.Function) *SpecInfo {
 				case *ssa.Lookup:
 					if _, ok := x.X.Type().Underlying().(*types.Map); ok {
 						k := typeKey(x.X.Type().Underlying())
+						e.registerMapHeaps(x.X.Type())
 						heaps["Mdom:"+k], heaps["Msel:"+k], heaps["Mlen:"+k] = true, true, true
 					}
 				case *ssa.Range:
 					if _, ok := x.X.Type().Underlying().(*types.Map); ok {
 						k := typeKey(x.X.Type().Underlying())
+						e.registerMapHeaps(x.X.Type())
 						heaps["Mdom:"+k], heaps["Msel:"+k], heaps["Mlen:"+k] = true, true, true
 					}
 				case *ssa.UnOp:
@@ -159,15 +161,20 @@ func (e *Engine) specInfo(fn *ssa.Function) *SpecInfo {
 							if fa, ok := x.X.(*ssa.FieldAddr); ok {
 								spt := fa.X.Type().Underlying().(*types.Pointer).Elem()
 								if _, isAl := fa.X.(*ssa.Alloc); !isAl && isStructNonOpaque(spt) {
-									heaps["F:"+typeKey(spt)+"."+spt.Underlying().(*types.Struct).Field(fa.Field).Name()] = true
+									hn := "F:" + typeKey(spt) + "." + spt.Underlying().(*types.Struct).Field(fa.Field).Name()
+									e.heapSorts[hn] = ArrOf(SInt, e.tc.SortOf(spt.Underlying().(*types.Struct).Field(fa.Field).Type()))
+									heaps[hn] = true
 								}
 							} else if _, ok := x.X.(*ssa.IndexAddr); !ok {
 								if isStructNonOpaque(pt) {
 									stt := pt.Underlying().(*types.Struct)
 									for i := 0; i < stt.NumFields(); i++ {
-										heaps["F:"+typeKey(pt)+"."+stt.Field(i).Name()] = true
+										hn := "F:" + typeKey(pt) + "." + stt.Field(i).Name()
+										e.heapSorts[hn] = ArrOf(SInt, e.tc.SortOf(stt.Field(i).Type()))
+										heaps[hn] = true
 									}
 								} else if !isOpaqueStruct(pt) {
+									e.heapSorts["P:"+typeKey(pt)] = ArrOf(SInt, e.tc.SortOf(pt))
 									heaps["P:"+typeKey(pt)] = true
 								}
 							}
@@ -177,6 +184,7 @@ func (e *Engine) specInfo(fn *ssa.Function) *SpecInfo {
 					if b, ok := x.Call.Value.(*ssa.Builtin); ok && b.Name() == "len" {
 						if _, ok := x.Call.Args[0].Type().Underlying().(*types.Map); ok {
 							k := typeKey(x.Call.Args[0].Type().Underlying())
+							e.registerMapHeaps(x.Call.Args[0].Type())
 							heaps["Mdom:"+k], heaps["Msel:"+k], heaps["Mlen:"+k] = true, true, true
 						}
 					}
@@ -186,6 +194,11 @@ func (e *Engine) specInfo(fn *ssa.Function) *SpecInfo {
 						}
 						if gh := ghostIntrinsicHeaps(cf); gh != nil {
 							for _, h := range gh {
+								if strings.HasPrefix(h, "G:") {
+									e.heapSorts[h] = ghostHeapSort(h)
+								} else if strings.HasPrefix(h, "M") {
+									e.registerMapHeaps(types.NewMap(types.Typ[types.String], types.NewInterfaceType(nil, nil)))
+								}
 								heaps[h] = true
 							}
 						}
@@ -736,4 +749,13 @@ func (c *FnCtx) quantifierKeys(fr *Frame, st *State, mt types.Type, m *Term, fv 
 	}
 	c.noObl--
 	return ts.Quant("forall", bv, ts.Implies(dom, body[0]))
+}
+
+func (e *Engine) registerMapHeaps(t types.Type) {
+	mt := t.Underlying().(*types.Map)
+	k := typeKey(mt)
+	ks, vs := e.tc.SortOf(mt.Key()), e.tc.SortOf(mt.Elem())
+	e.heapSorts["Mdom:"+k] = ArrOf(SInt, ArrOf(ks, SBool))
+	e.heapSorts["Msel:"+k] = ArrOf(SInt, ArrOf(ks, vs))
+	e.heapSorts["Mlen:"+k] = ArrOf(SInt, SInt)
 }
